@@ -67,12 +67,12 @@ where
             }
         } else {
             // tracing::trace!("new entry for {}", id);
-            self.queue.insert(id, ReassembleQueue::new(total, seq, buf));
-            self.timer.push_back((id, Instant::now() + self.timeout));
+            let deadline = Instant::now() + self.timeout;
             #[cfg(redproxy_verif)]
-            if let Some(last) = self.timer.back_mut() {
-                last.1 += crate::vtrace::skew();
-            }
+            let deadline = deadline + crate::vtrace::skew();
+            self.queue
+                .insert(id, ReassembleQueue::new(total, seq, buf, deadline));
+            self.timer.push_back((id, deadline));
             None
         }
     }
@@ -85,8 +85,12 @@ where
         #[cfg(redproxy_verif)]
         let now = now + crate::vtrace::skew();
         for _ in 0..self.timer.partition_point(|x| x.1 < now) {
-            let id = self.timer.pop_front().unwrap().0;
-            self.queue.remove(&id);
+            let (id, deadline) = self.timer.pop_front().unwrap();
+            // the entry this timer was armed for may have completed already and the id may
+            // be in use by a newer entry with its own timer
+            if self.queue.get(&id).map_or(false, |q| q.deadline == deadline) {
+                self.queue.remove(&id);
+            }
             // tracing::trace!("removed fragment queue {} by timer", id);
         }
     }
@@ -143,16 +147,21 @@ impl<T: Buf> Iterator for MakeFragments<T> {
 struct ReassembleQueue {
     bitmap: u128,
     fragments: Vec<Bytes>,
+    deadline: Instant,
 }
 
 impl ReassembleQueue {
-    fn new(total: u8, seq: u8, buf: Bytes) -> Self {
+    fn new(total: u8, seq: u8, buf: Bytes, deadline: Instant) -> Self {
         let total = total as usize;
         let this = seq as usize;
         let bitmap = !0u128 << total | 1 << this;
         let mut fragments = vec![Bytes::new(); total];
         fragments[this] = buf;
-        Self { bitmap, fragments }
+        Self {
+            bitmap,
+            fragments,
+            deadline,
+        }
     }
     fn add_fragment(&mut self, total: u8, seq: u8, buf: Bytes) -> bool {
         if total as usize != self.fragments.len() {
